@@ -5,7 +5,7 @@
       label, IDN U-label, IDN A-label, wildcard-looking, IPv4 literal, IPv6 literal} x local address {IPv4, loopback,
       IPv6, zone-scoped IPv6} (when there is no SNI) x server address {none, same as SNI, DNS, IDN, IPv4, IPv6} x
       upstream certificate {none, CN only, CN not a host name, CN an IP, SAN list, CN+SAN+organization, duplicate of
-      SNI, CRL distribution point, 64-character CN} x `upstream_cert` option x CA {mitmproxy's own `create_store`
+      SNI, CRL distribution point, 64-character CN, IP addresses as dNSName entries} x `upstream_cert` option x CA {mitmproxy's own `create_store`
       CA, custom RSA intermediate under an EC root with an RFC 7093 (non-SHA-1) key identifier}.
       Selection logic: SAN set  ⊆ {SNI-or-local-address, server address, upstream CN/SANs}, contains the SNI (A-label)
       or the local address as iPAddress, no duplicates, CN/O only from the same sources.
@@ -95,6 +95,8 @@ UPSTREAM = [
     ("dup-of-sni", "example.com", [("dns", "example.com"), ("ip", "192.0.2.7")], None, None),
     ("crl-dp", "upstream.example", [("dns", "upstream.example")], None, "http://crl.upstream.example/ca.crl"),
     ("cn-64-chars", CN64, [("dns", "upstream.example")], None, None),
+    # the origin's certificate names the addresses the client uses as dNSName entries (seen on appliances): same text, other name type
+    ("ip-as-dnsname", None, [("dns", "192.0.2.7"), ("dns", "192.0.2.1"), ("dns", "origin.example")], None, None),
 ]
 # thorough tier: a few more classes
 SNI_MORE = [("single-label", "intranet", ("dns", "intranet"), ("dns", "intranet")),
@@ -291,7 +293,8 @@ def h_cert(X, ca_kinds, sni_menu, up_menu):
             cnk = ("ip", ipaddress.ip_address(cnv).packed)
         except ValueError:
             cnk = ("dns", cnv.lower())
-        X.check(cnk in allowed | upstream_names, f"C16/subject/foreign-cn/sni={sni_cls}", f"{cfg}: CN {cnv!r} from none of the permitted sources")
+        # the CN is text: it may spell a permitted name of either type (an upstream dNSName entry "192.0.2.7" is a permitted source)
+        X.check(cnk in allowed | upstream_names or ("dns", cnv.lower()) in allowed | upstream_names, f"C16/subject/foreign-cn/sni={sni_cls}", f"{cfg}: CN {cnv!r} from none of the permitted sources")
     else:
         X.reach("no-cn")
     org_attr = leaf.subject.get_attributes_for_oid(NameOID.ORGANIZATION_NAME)
